@@ -94,9 +94,16 @@ def build() -> Check:
         elif base == BTE_FQ:
             ok = outs <= {"FAILED"} | {o for o in outs if o.startswith("raise")} and "SUCCEEDED" not in outs and "PENDING" not in outs
             msg = f"BackgroundThreadError -> {sorted(outs)}"
-        elif base == ORPHAN_FQ or base == "builtins.BaseException":
+        elif base == ORPHAN_FQ:
             ok = all(o.startswith("raise") or o in ("PENDING", "FAILED") for o in outs) and "SUCCEEDED" not in outs
             msg = f"{short(oc)} -> {sorted(outs)}"
+        elif base == "builtins.BaseException":
+            # a user exception that derives from BaseException but not from Exception (asyncio.CancelledError re-raised by asyncio.run(), BaseExceptionGroup):
+            # "ordinary user exceptions become FAILED" and "raises only for errors that must trigger a Lambda retry" - own rule id
+            ok = all(o.startswith("raise") or o in ("PENDING", "FAILED") for o in outs) and "SUCCEEDED" not in outs
+            msg = f"{short(oc)} -> {sorted(outs)}"
+            ck.ob("R1.base-exception-from-user-code-becomes-failed", c_w, not any(o.startswith("raise") for o in outs),
+                  f"an exception of the handler that derives from BaseException only ends the invocation with {sorted(outs)}: it is raised to Lambda (a retry) instead of FAILED")
         else:
             # ExecutionError family, every other SDK error, arbitrary user exceptions
             ok, msg = outs == {"FAILED"}, f"{short(oc)} -> {sorted(outs)}, expected FAILED"
@@ -241,6 +248,19 @@ def build() -> Check:
                 bad.append((f"malformed payload ({short(p[0].data['outcome'])}) ends with {t.outcome} {t.exc_class() or status_of(t)}", t))
     ck.floor("malformed_payload_paths", n_mal, 3)
     ck.ob("R5.malformed-payload-raises-execution-error", c_w, not bad, bad[0][0] if bad else "")
+    # R2 "SUCCEEDED (JSON result)": json.dumps accepts NaN / Infinity by default and writes the bare tokens NaN / Infinity, which are not JSON
+    nan_bad = []
+    n_res_dumps = 0
+    for t in wt:
+        for e in t.kinds("DUMPS"):
+            if str(e.data.get("src", "")).startswith("handler_result"):
+                n_res_dumps += 1
+                if e.data.get("kwargs", {}).get("allow_nan") != "False":
+                    nan_bad.append(t)
+    ck.floor("handler_result_dumps", n_res_dumps, 1)
+    ck.ob("R2.result-is-strict-json", c_w, not nan_bad,
+          "the handler's result is serialised with json.dumps(..., allow_nan=True) (the default): a result containing float('nan') / float('inf') is answered SUCCEEDED with "
+          "the text NaN / Infinity in it, which is not JSON")
     return ck
 
 
